@@ -43,11 +43,11 @@ def base_meta(E, version, force=None):
     big = 70000 if has("layers") else 30000
     if version in (2, 3):
         info["file tree"] = {"announce": {"": {"length": big, "pieces root": tok("root-a", 32)}},
-                             "comment": {"": {"length": 5, "pieces root": tok("root-b", 32)}},
+                             "comment": {"": {"length": 40000 if big > 32768 else 5, "pieces root": tok("root-b", 32)}},
                              "private": {"source": {"": {"length": 7, "pieces root": tok("root-c", 32)}},
                                          "url-list": {"": {"length": 0}}}}
     if version in (1, 3):
-        info["files"] = [{"length": big, "path": ["announce"]}, {"length": 5, "path": ["comment"]},
+        info["files"] = [{"length": big, "path": ["announce"]}, {"length": 40000 if big > 32768 else 5, "path": ["comment"]},
                          {"length": 7, "path": ["private", "source"]}, {"length": 0, "path": ["private", "url-list"]}]
     if version in (2, 3):
         info["meta version"] = 2
@@ -61,7 +61,12 @@ def base_meta(E, version, force=None):
         info["source"] = OStr("base.source", nonempty=True)
     meta["info"] = info
     if version in (2, 3):
-        meta["piece layers"] = {tok("root-a", 32): tok("layer-a", 96)} if big > 32768 else {}
+        if big > 32768:
+            # two multi-piece files; the input is canonical: root-a sorts before root-b as bytes
+            E.assume(tok("root-a", 32) < tok("root-b", 32))
+            meta["piece layers"] = {tok("root-a", 32): tok("layer-a", 96), tok("root-b", 32): tok("layer-b", 64)}
+        else:
+            meta["piece layers"] = {}
     if has("url-list"):
         meta["url-list"] = [OStr("base.webseed", nonempty=True)]
     return meta
